@@ -25,6 +25,7 @@ type Input struct {
 	Graph  *Graph `json:"graph"`
 	Other  *Graph `json:"other,omitempty"` // second graph of a pair
 	Note   string `json:"note,omitempty"`
+	Share  *Share `json:"share,omitempty"` // pointer sharing applied after construction
 }
 
 type run struct {
@@ -178,10 +179,10 @@ func (gr *Graph) cyclic() bool {
 }
 
 // checkGraph runs every law that concerns one graph.
-func (r *run) checkGraph(gr *Graph, stream string, withViews bool) {
-	in := Input{Stream: stream, Graph: gr}
+func (r *run) checkGraph(gr *Graph, stream string, withViews bool, share *Share) {
+	in := Input{Stream: stream, Graph: gr, Share: share}
 	r.addInput(in)
-	b := buildGraph(gr)
+	b := buildShared(gr, share)
 	root := b.root.Type
 	res := r.res
 	res.Count("root_kind=" + kindOf(root))
@@ -206,13 +207,96 @@ func (r *run) checkGraph(gr *Graph, stream string, withViews bool) {
 	}
 
 	// a second build of the same description: other pointers, same structure
-	r.sameHashes("rebuild-changes-hash", "two builds of the same description", hs, hashAll(buildGraph(gr).root.Type), in)
+	r.sameHashes("rebuild-changes-hash", "two builds of the same description", hs, hashAll(buildShared(gr, share).root.Type), in)
 
-	// declaration order of attributes / union values / meta entries
-	r.permutations(gr, hs, in)
+	// declaration order of attributes / union values / meta entries (the node a Share
+	// selects depends on the order, so shared graphs are not reordered)
+	if share == nil {
+		r.permutations(gr, hs, in)
+	}
+
+	// Equal between the types of this one graph
+	if share == nil || share.Kind == "attribute" {
+		r.sameGraphPairs(b, in)
+	}
 
 	// copies
 	r.copies(gr, b, hs, in, withViews)
+}
+
+// sameGraphPairs: expr.Equal on two types that live in the same graph and therefore
+// reach the same Object pointers (the root, the reachable user types, the types of the
+// root's entries). Equal must be reflexive and symmetric, and since a copy is
+// structurally equal to its original, replacing both operands by separate copies must
+// not change the answer.
+func (r *run) sameGraphPairs(b *built, in Input) {
+	type node struct {
+		what string
+		dt   expr.DataType
+	}
+	nodes := []node{{"root", b.root.Type}}
+	for i, u := range reach(b.root).uts {
+		if u != b.root.Type {
+			nodes = append(nodes, node{fmt.Sprintf("user type %d (%s)", i, u.Name()), u})
+		}
+	}
+	var entries []*expr.NamedAttributeExpr
+	switch t := b.root.Type.(type) {
+	case *expr.Object:
+		entries = *t
+	case *expr.Union:
+		entries = t.Values
+	}
+	for i, nat := range entries {
+		if i < 3 {
+			if _, prim := nat.Attribute.Type.(expr.Primitive); !prim {
+				nodes = append(nodes, node{"type of root entry " + nat.Name, nat.Attribute.Type})
+			}
+		}
+	}
+	type pair struct{ i, j int }
+	var ps []pair
+	for i := range nodes {
+		for j := i + 1; j < len(nodes); j++ {
+			ps = append(ps, pair{i, j})
+		}
+	}
+	for len(ps) > 6 {
+		k := r.rng.Intn(len(ps))
+		ps = append(ps[:k], ps[k+1:]...)
+	}
+	if !expr.Equal(b.root.Type, b.root.Type) {
+		r.fail("equal-not-reflexive", "Equal(t, t) = false", in)
+	}
+	modelled := false
+	for _, p := range ps {
+		x, y := nodes[p.i], nodes[p.j]
+		pin := in
+		pin.Note = fmt.Sprintf("operands: %s and %s of the same graph", x.what, y.what)
+		eq := expr.Equal(x.dt, y.dt)
+		r.evals += 3
+		r.res.Count(fmt.Sprintf("same_graph_pairs: equal=%v", eq))
+		if expr.Equal(y.dt, x.dt) != eq {
+			r.fail("equal-not-symmetric", fmt.Sprintf("Equal(a, b) = %v but Equal(b, a) = %v (%s)", eq, !eq, pin.Note), pin)
+		}
+		cx, cy := expr.Dup(x.dt), expr.Dup(y.dt)
+		if !unguardedCycle(cx) && !unguardedCycle(cy) {
+			if eqc := expr.Equal(cx, cy); eqc != eq {
+				r.fail("equal-changes-under-copy", fmt.Sprintf("Equal(a, b) = %v but Equal(Dup(a), Dup(b)) = %v (%s)", eq, eqc, pin.Note), pin)
+			}
+		}
+		// one pair per graph also goes to the model (one environment, two roots)
+		if _, isUser := y.dt.(expr.UserType); !modelled && isUser && in.Share == nil {
+			modelled = true
+			n := newNamer()
+			n.collect(b.root.Type)
+			pr := &printer{p: r.pool, n: n, r: r.rng}
+			env := pr.envAll()
+			fmt.Fprintf(r.pairs, "PC %d %s %s %s %s %s\n", r.nPair, env, pr.ty(x.dt), env, pr.ty(y.dt), vh.CoqBool(eq))
+			r.pairIdx = append(r.pairIdx, r.nInputs-1)
+			r.nPair++
+		}
+	}
 }
 
 func (r *run) permutations(gr *Graph, hs [8]string, in Input) {
@@ -289,7 +373,11 @@ func (r *run) copies(gr *Graph, b *built, hs [8]string, in Input, withViews bool
 			r.fail("copy-not-hashable", c.name+"(t) contains a cycle of user types that passes through no object: hashing it does not terminate", in)
 			continue
 		}
-		if !r.sameHashes("copy-changes-hash", c.name+"(t) vs t", hs, hashAll(c.att.Type), in) {
+		sig := "copy-changes-hash"
+		if in.Share != nil && in.Share.Kind == "object" {
+			sig = "copy-changes-hash/shared-object" // Dup gives every occurrence its own Object
+		}
+		if !r.sameHashes(sig, c.name+"(t) vs t", hs, hashAll(c.att.Type), in) {
 			continue
 		}
 		if !expr.Equal(c.att.Type, b.root.Type) {
@@ -352,7 +440,7 @@ func (r *run) copies(gr *Graph, b *built, hs [8]string, in Input, withViews bool
 			if after := snapshot(b.root); after != before {
 				r.fail("copy-mutation-leaks/"+kind, "after "+kind+" through "+c.name+"(t) the original changed: "+firstDiff(before, after), in)
 				// the original is spoiled: rebuild for the remaining kinds
-				b = buildGraph(gr)
+				b = buildShared(gr, in.Share)
 				before = snapshot(b.root)
 			}
 		}
@@ -449,7 +537,7 @@ func main() {
 		if in.Other != nil && (strings.HasPrefix(in.Stream, "pairs") || strings.HasPrefix(in.Stream, "witness-equal")) {
 			r.checkPair(in.Graph, in.Other, in.Stream, in.Note, 0)
 		} else {
-			r.checkGraph(in.Graph, in.Stream, strings.HasPrefix(in.Stream, "witness-views"))
+			r.checkGraph(in.Graph, in.Stream, strings.HasPrefix(in.Stream, "witness-views"), in.Share)
 		}
 	} else {
 		r.streams(*tier)
